@@ -177,6 +177,7 @@ def consumed_keys():
 
 
 def run(rep: core.Report):
+    _r16g(rep)
     rep.rule("R16a", "yaml key agreement: every key the loader needs for the fields the property names is emitted by the dumper and vice versa; every other key the loader reads is emitted or a listed legacy key; a membership test guards the key that is then looked up", 45)
     rep.rule("R16b", "save() hands every piece of state to the dumper; dumper settings keys are known", 14)
     rep.rule("R16c", "writers of whitespace-tokenised files separate adjacent numeric fields by a literal delimiter and write as many fields per line as the parser reads", 6)
@@ -569,6 +570,85 @@ def _r16f(rep):
     rep.instance("R16f", FIO, "_expand_borns", "operation index and representative are taken from map_operations[i] / map_atoms[i] of the same atom", True, "", line=fn.lineno, nontrivial=False)
 
 
+
+LOADH = "phonopy/cui/load_helper.py"
+
+
+def _r16g(rep):
+    """Default-fill discipline of the loading helpers: what was read from a file wins over a calculator default."""
+    rep.rule("R16g", "a value read from a file is never replaced by a default: in the loading helpers every write of a constant key into a dictionary that was not created in the function (d[K] = v, d.update, {**d, K: v}, dict(d, K=v)) is guarded by a test that K is absent; in a dictionary merge the defaults come before the loaded entries", 1)
+    tree = core.parse(LOADH)
+    n_sites = 0
+    for fn in [x for x in ast.walk(tree) if isinstance(x, ast.FunctionDef)]:
+        fresh = set()
+        for st in ast.walk(fn):
+            if isinstance(st, ast.Assign) and len(st.targets) == 1 and isinstance(st.targets[0], ast.Name):
+                v = st.value
+                if (isinstance(v, ast.Dict) and not any(k is None for k in v.keys)) or (isinstance(v, ast.Call) and core.src(v.func) == "dict" and not v.args):
+                    fresh.add(st.targets[0].id)
+        # a name that is also bound to something else is not fresh
+        for st in ast.walk(fn):
+            if isinstance(st, ast.Assign) and len(st.targets) == 1 and isinstance(st.targets[0], ast.Name) and st.targets[0].id in fresh:
+                v = st.value
+                if not ((isinstance(v, ast.Dict) and not any(k is None for k in v.keys)) or (isinstance(v, ast.Call) and core.src(v.func) == "dict" and not v.args)):
+                    fresh.discard(st.targets[0].id)
+
+        def guarded(node, dname, key):
+            """an enclosing `if` (body side) whose test has the conjunct  key not in d  /  d.get(key) is None"""
+            cur = node
+            while cur is not fn:
+                par = getattr(cur, "_parent", None)
+                if par is None:
+                    return False
+                if isinstance(par, ast.If) and cur in par.body:
+                    conj = par.test.values if isinstance(par.test, ast.BoolOp) and isinstance(par.test.op, ast.And) else [par.test]
+                    for c in conj:
+                        t = core.src(c).replace('"', "'")
+                        if t in (f"'{key}' not in {dname}", f"{dname}.get('{key}') is None", f"not '{key}' in {dname}"):
+                            return True
+                cur = par
+            return False
+
+        sites = []  # (node, dict name, key, form)
+        for st in ast.walk(fn):
+            if isinstance(st, ast.Assign):
+                for t in st.targets:
+                    if isinstance(t, ast.Subscript) and isinstance(t.value, ast.Name) and isinstance(t.slice, ast.Constant) and isinstance(t.slice.value, str):
+                        sites.append((st, t.value.id, t.slice.value, "store"))
+                v = st.value
+                if isinstance(v, ast.Dict) and any(k is None for k in v.keys):
+                    # {**d, K: v}: entries after the unpacking overwrite what d holds
+                    seen_unpack = None
+                    later = [val.id for k, val in zip(v.keys, v.values) if k is None and isinstance(val, ast.Name)]
+                    for k, val in zip(v.keys, v.values):
+                        if k is None and isinstance(val, ast.Name):
+                            seen_unpack = val.id
+                        elif seen_unpack and isinstance(k, ast.Constant) and isinstance(k.value, str):
+                            sites.append((st, seen_unpack, k.value, "merge"))
+                        elif not seen_unpack and later and isinstance(k, ast.Constant) and isinstance(k.value, str):
+                            sites.append((st, later[0], k.value, "default-first merge"))
+                if isinstance(v, ast.Call) and core.src(v.func) == "dict" and v.args and isinstance(v.args[0], ast.Name):
+                    for kw in v.keywords:
+                        if kw.arg:
+                            sites.append((st, v.args[0].id, kw.arg, "merge"))
+            if isinstance(st, ast.Expr) and isinstance(st.value, ast.Call) and isinstance(st.value.func, ast.Attribute) and st.value.func.attr == "update" and isinstance(st.value.func.value, ast.Name):
+                c = st.value
+                keys = [kw.arg for kw in c.keywords if kw.arg]
+                if c.args and isinstance(c.args[0], ast.Dict):
+                    keys += [k.value for k in c.args[0].keys if isinstance(k, ast.Constant) and isinstance(k.value, str)]
+                for k in keys:
+                    sites.append((st, c.func.value.id, k, "update"))
+        for node, dname, key, form in sites:
+            if dname in fresh:
+                continue
+            n_sites += 1
+            ok = form == "default-first merge" or guarded(node, dname, key)
+            rep.instance("R16g", LOADH, fn.name, f"{form} of '{key}' into {dname}: {core.norm(core.src(node), 70)}", ok,
+                         f"'{key}' is written into {dname} — a dictionary this function did not create (read from phonopy.yaml / BORN or handed in) — without a test that the key is absent: a '{key}' stored in the file is replaced by the default on loading, so save() -> load() does not reproduce it", line=node.lineno)
+    if not n_sites:
+        raise AnalysisError("R16g: no default-fill site left in the loading helpers (get_nac_params filled 'factor' on the confirmed tree)")
+
+
 def selftest():
     V = []
     b = lambda name, file, old, new, rule, expect="", **kw: V.append(dict(name=name, kind="break", file=file, old=old, new=new, rule=rule, expect=expect, **kw))
@@ -582,4 +662,7 @@ def selftest():
     b("FORCE_SETS columns fused again", FIO, 'lines.append(" ".join(["%15.8f"] * 6) % (tuple(d) + tuple(f)))', 'lines.append(("%15.8f" * 6) % (tuple(d) + tuple(f)))', "R16c", "_get_FORCE_SETS_lines_type2")
     b("type-1 forces written fused", FIO, '"%15.10f %15.10f %15.10f" % tuple(f)', '"%15.10f%15.10f%15.10f" % tuple(f)', "R16c", "type1")
     n("FORCE_SETS separator is a tab", FIO, 'lines.append(" ".join(["%15.8f"] * 6) % (tuple(d) + tuple(f)))', 'lines.append("\\t".join(["%15.8f"] * 6) % (tuple(d) + tuple(f)))')
+    b("calculator default replaces the stored NAC factor", LOADH, '    if _nac_params and "factor" not in _nac_params and nac_factor is not None:', '    if _nac_params and nac_factor is not None:', "R16g", "factor")
+    n("default filled with setdefault-like guard order", LOADH, '    if _nac_params and "factor" not in _nac_params and nac_factor is not None:', '    if nac_factor is not None and _nac_params and "factor" not in _nac_params:')
+    n("default filled by a merge with the defaults first", LOADH, '    if _nac_params and "factor" not in _nac_params and nac_factor is not None:\n        _nac_params["factor"] = nac_factor', '    if _nac_params and nac_factor is not None:\n        _nac_params = {"factor": nac_factor, **_nac_params}')
     return V
